@@ -17,12 +17,13 @@ class Shut(Family):
         # every position x with / without a shutdown request x 1..3 callers, single and repeated requests
         for pos, ks in (("idle", [0, 1]), ("partial_hdr", [1, 5, 11]), ("header_only", [0, 3, 7]), ("in_handler", [0, 1]),
                         ("after_reply", [1, 2, 3]), ("peer_closed", [0, 1]), ("peer_closed_partial", [1, 5, 11, 12, 15, 19]),
-                        ("invalid_request", [0, 1]), ("reply_to_closed_peer", [0]), ("peer_halfclose", [0, 1, 5, 11, 12, 15, 19])):
+                        ("invalid_request", [0, 1]), ("reply_to_closed_peer", [0]), ("peer_halfclose", [0, 1, 5, 11, 12, 15, 19]),
+                        ("reply_blocked", [0, 1])):
             for k in ks:
                 for callers, repeats in ((1, 1), (2, 1), (3, 2)):
                     for rf in ((0, 1) if pos == "in_handler" else (0,)):
                         out.append((case(pos, k, 1, callers, repeats, rf, 1 + (k + callers) % 2), "shutdown@" + pos))
-                if pos not in ("idle", "partial_hdr", "header_only", "in_handler", "after_reply"):
+                if pos not in ("idle", "partial_hdr", "header_only", "in_handler", "after_reply", "reply_blocked"):
                     out.append((case(pos, k, 0, 1, 1, 0, 1 + k % 2), "no-shutdown@" + pos))
         for pos, ks in (("serve_clean", [0, 1, 3]), ("serve_partial", [1, 5, 11]), ("serve_invalid", [0])):
             for k in ks:
